@@ -11,6 +11,7 @@ require (
 )
 
 require (
+	github.com/danos/encoding v0.0.0-20210701125528-66857fd8c8ea // indirect
 	github.com/danos/mgmterror v0.0.0-20210701125710-6fcf751e367d // indirect
 	github.com/sirupsen/logrus v1.9.3 // indirect
 	golang.org/x/net v0.41.0 // indirect
